@@ -20,8 +20,15 @@ extern int mpt_parse_option(const MPT_STRUCT(parser_format) *fmt, MPT_STRUCT(par
 {
 	int curr;
 	
+	/* name has begun, space and comment characters are not to be skipped */
+	if (parse->valid) {
+		curr = mpt_parse_getchar(&parse->src, path);
+	}
 	/* get next visible character, no save */
-	if ((curr = mpt_parse_nextvis(&parse->src, fmt->com, sizeof(fmt->com))) < 0) {
+	else {
+		curr = mpt_parse_nextvis(&parse->src, fmt->com, sizeof(fmt->com));
+	}
+	if (curr < 0) {
 		parse->curr = parse->valid ? (MPT_PARSEFLAG(Option) | MPT_PARSEFLAG(Name)) : MPT_PARSEFLAG(Option);
 		if (curr != -2) {
 			return MPT_ERROR(BadArgument);
@@ -32,7 +39,7 @@ extern int mpt_parse_option(const MPT_STRUCT(parser_format) *fmt, MPT_STRUCT(par
 		parse->curr = MPT_PARSEFLAG(Option) | MPT_PARSEFLAG(Name);
 		return MPT_ERROR(BadValue);
 	}
-	if (mpt_path_addchar(path, curr) < 0) {
+	if (!parse->valid && mpt_path_addchar(path, curr) < 0) {
 		parse->curr = MPT_PARSEFLAG(Option) | MPT_PARSEFLAG(Name);
 		return MPT_ERROR(MissingBuffer);
 	}
